@@ -5,6 +5,7 @@ import os
 import sys
 sys.path.insert(0, os.path.dirname(os.path.dirname(os.path.abspath(__file__))))
 
+FLOOR_NOTE = 'Trusted base: TLC 1.8 / SANY, the Python tracer, builder and projection in /verif/harness (run-time wrapping of Environment.step and Part.__init__, tie-break shim), the configuration renderer. Exhaustive only within the bounds of the design family (small lines, horizon <= 16 ticks); larger scenario families are covered by trace validation. Times on an exact grid of 0.25 time units.'
 NOTE_COMMON = ('Trusted base: TLC 1.8 / SANY, the Python tracer and projection in /verif/harness, the tie-break shim '
                '(replaces the random module seen by simprocesd.model.simulation). Exhaustive only within the stated '
                'bounds; times on an exact integer/dyadic grid.')
@@ -73,9 +74,43 @@ CLAIMS = {
         'calls) and TLC validates every recorded line against LifecycleTrace.tla; for every kind a late-created asset is compared with '
         'its twin created before the start (recorded data, counters, callback logs).',
    technique='TLA+ closed spec model-checked with TLC + TLC trace validation of real System/asset lifecycle scripts + late-vs-twin scenario pairs'),
+ 'C02': dict(engine='floor', ref='DESIGN.md 3.2, 6', note=FLOOR_NOTE,
+   text='Observer C02 of FloorObs.tla (every leaf part occurs exactly once among device slots, buffer contents, batches in progress, sink deliveries and reported losses; single-slot devices; sink counters; part budget by the documented rule; losses only by failures) is checked by TLC on every step of the closed specification FloorMC (every tie-break order of every configuration of the design family: serial, parallel, resources, gates, batches, targeted fault scripts) and on every recorded step of the real package over the larger scenario families; the closed specification is bound to the code by step-by-step state comparison and by replaying TLC behaviours with forced dispatch order.',
+   technique='TLA+ closed spec Floor.tla model-checked with TLC over configuration families (all tie-breaks) + TLC trace validation of real runs against the property observers FloorObs.tla (sampled TLC behaviours replayed on the code with forced dispatch order)'),
+ 'C03': dict(engine='floor', ref='DESIGN.md 3.2, 6', note=FLOOR_NOTE,
+   text='Observer C03: at every recorded or specified state after which the clock advances, no device holds a ready item that one of its downstream devices would take (WouldTake mirrors acceptance without side effects: blocking, failure, capacity, resources, gate predicates), no waiting resource request is feasible, and the number of events within one instant is bounded; a run that raises or does not return is reported. Checked by TLC on the closed specification over all tie-breaks and on recorded runs with scripted failures, shutdowns, blocking, capacity and budget changes, between-run calls.',
+   technique='TLA+ closed spec Floor.tla model-checked with TLC over configuration families (all tie-breaks) + TLC trace validation of real runs against the property observers FloorObs.tla (sampled TLC behaviours replayed on the code with forced dispatch order)'),
+ 'C04': dict(engine='floor', ref='DESIGN.md 3.2, 6', note=FLOOR_NOTE,
+   text='Observer C04 evaluates the blocking-after-service recurrence in TLA+ from the arrival times observed so far: the k-th arrival at every station of a serial line must equal max(A(j-1,k)+c, A(j,k-1), A(j+1,k-K)), nothing may be late at the end of the run, and the sink count equals the reference. Checked by TLC on all tie-break orders of the serial lines of the design family and on every recorded arrival of several hundred serial lines (kinds, cycle times and delays including 0 and quarter units, capacities 1..infinity, budgets, horizons).',
+   technique='TLA+ closed spec Floor.tla model-checked with TLC over configuration families (all tie-breaks) + TLC trace validation of real runs against the property observers FloorObs.tla (sampled TLC behaviours replayed on the code with forced dispatch order)'),
+ 'C05': dict(engine='floor', ref='DESIGN.md 3.2, 6', note=FLOOR_NOTE,
+   text='Observer C05 (capacity counting every part of a batch, level = content, only heads leave and only after the minimum delay, arrivals stamped at arrival) checked by TLC on every step of the closed specification and of recorded runs with several producers and consumers, batches, blocked / failed / resource-starved consumers.',
+   technique='TLA+ closed spec Floor.tla model-checked with TLC over configuration families (all tie-breaks) + TLC trace validation of real runs against the property observers FloorObs.tla (sampled TLC behaviours replayed on the code with forced dispatch order)'),
+ 'C06': dict(engine='floor', ref='DESIGN.md 3.2, 6', note=FLOOR_NOTE,
+   text='Observer C06 keeps the operational time still owed to each part (cycle time in effect after the receive callbacks plus one-shot offsets booked by public calls, floored at zero; shut-down time does not count) and checks: never late, never early, zero-time finishes only when nothing is owed, failures lose rather than finish, one part at a time, sources need their full cycle, sinks keep their spacing. Checked by TLC on the closed specification (pause / cancel / unpause of the cycle timer under every tie-break) and on recorded runs including double shutdowns within one part and failures during maintenance.',
+   technique='TLA+ closed spec Floor.tla model-checked with TLC over configuration families (all tie-breaks) + TLC trace validation of real runs against the property observers FloorObs.tla (sampled TLC behaviours replayed on the code with forced dispatch order)'),
+ 'C08': dict(engine='floor', ref='DESIGN.md 3.2, 6', note=FLOOR_NOTE,
+   text='Observer C08 (history follows configured connections, ends at the holder, only grows, leaves share the batch history, gates respected, blocked inputs refuse, sinks collect in arrival order, the longest idle single-slot device receives) with the route graph taken from the configuration; checked by TLC on the closed specification and on recorded runs with gates, junctions, rework loops, batches and congestion.',
+   technique='TLA+ closed spec Floor.tla model-checked with TLC over configuration families (all tie-breaks) + TLC trace validation of real runs against the property observers FloorObs.tla (sampled TLC behaviours replayed on the code with forced dispatch order)'),
+ 'C11': dict(engine='floor', ref='DESIGN.md 3.2, 6', note=FLOOR_NOTE,
+   text='Observer C11 (holds exactly while processing, pool usage = requirements of the holders, atomic acquisition on accept, released on failure, kept through maintenance, no idle operational holder when time advances) checked by TLC on the closed specification and on recorded runs with competing processors, capacity scripts, failures and maintenance.',
+   technique='TLA+ closed spec Floor.tla model-checked with TLC over configuration families (all tie-breaks) + TLC trace validation of real runs against the property observers FloorObs.tla (sampled TLC behaviours replayed on the code with forced dispatch order)'),
+ 'C13': dict(engine='floor', ref='DESIGN.md 3.2, 6', note=FLOOR_NOTE,
+   text='Observer C13 (down machines accept and release nothing, a failure discards exactly the part in process and reports it once, callbacks once per occurrence in registration order, repeated calls are no-ops, uptime and utilisation equal accumulated operational / processing time) checked by TLC on the closed specification and on recorded runs.',
+   technique='TLA+ closed spec Floor.tla model-checked with TLC over configuration families (all tie-breaks) + TLC trace validation of real runs against the property observers FloorObs.tla (sampled TLC behaviours replayed on the code with forced dispatch order)'),
+ 'C15': dict(engine='floor', ref='DESIGN.md 3.2, 6', note=FLOOR_NOTE,
+   text='Observer C15 (last level / resource record equals the live value, exactly one received / produced / supplied / failure record per occurrence observed through public callbacks with time, part, quality and value, counters equal record counts) checked by TLC on every recorded step; the resource-record clauses are also checked on the pool traces of PoolsTrace.tla.',
+   technique='TLA+ closed spec Floor.tla model-checked with TLC over configuration families (all tie-breaks) + TLC trace validation of real runs against the property observers FloorObs.tla (sampled TLC behaviours replayed on the code with forced dispatch order)'),
+ 'C16': dict(engine='floor', ref='DESIGN.md 3.2, 6', note=FLOOR_NOTE,
+   text='Observer C16 (value = start + history, each entry with time, non-zero change and running total; source value = minus supplied value; sink value = received value; batch = sum of parts; net value = sum over assets) checked by TLC on every recorded step of the scenario families.',
+   technique='TLA+ closed spec Floor.tla model-checked with TLC over configuration families (all tie-breaks) + TLC trace validation of real runs against the property observers FloorObs.tla (sampled TLC behaviours replayed on the code with forced dispatch order)'),
+ 'C17': dict(engine='floor', ref='DESIGN.md 3.2, 6', note=FLOOR_NOTE,
+   text='Observer C17 keeps the sequence of leaf parts entering and leaving each batcher and checks sequence preservation, exact batch sizes, acceptance only when empty, and leaf counting in buffers and sinks; checked by TLC on the closed specification and on recorded runs with single parts and batches of sizes 0..3 through one or two batchers, buffers and processors.',
+   technique='TLA+ closed spec Floor.tla model-checked with TLC over configuration families (all tie-breaks) + TLC trace validation of real runs against the property observers FloorObs.tla (sampled TLC behaviours replayed on the code with forced dispatch order)'),
 }
 
 ENGINES = {
+ 'floor': dict(name='floor', path='harness/p_floor.py', kind_free_text='Floor.tla (closed spec) / FloorMC.tla + generated FloorCfgs / FloorObs.tla (property observers) / FloorTrace.tla; harness/floor_cfg.py floor_build.py floor_tracer.py floor_mc.py'),
  'lifecycle': dict(name='lifecycle', path='harness/p_lifecycle.py', kind_free_text='Lifecycle.tla / LifecycleMC.tla / LifecycleTrace.tla; harness/component.py; driver harness/lifecycle_driver.py'),
  'sched': dict(name='sched', path='harness/p_sched.py', kind_free_text='Sched.tla / SchedMC.tla / SchedTrace.tla; harness/component.py; driver harness/sched_driver.py'),
  'sensors': dict(name='sensors', path='harness/p_sensors.py', kind_free_text='Sensors.tla / SensorsMC.tla / SensorsTrace.tla; harness/component.py; driver harness/sensors_driver.py'),
